@@ -249,6 +249,7 @@ func (fs *FS) doCrash(op string) {
 	if cb != nil {
 		cb(op)
 	}
+	simrt.MarkDying()
 	runtime.Goexit()
 }
 
